@@ -9,6 +9,18 @@ CLAIMS = {
  "C01": ("Lean theorems: every decoder on the receive path (header, typed decoders, SnmpValue, relative OID, PDUs, v1/v2c/v3 messages, USM, scoped PDU, msgData, DES/AES decrypt, unwrap_pdu, op-layer conversion, the receive loop over any datagram sequence) returns a value or a documented exception and never panics, for every byte string, session state and pending operation; termination by structural / well-founded recursion with the progress guards shown unreachable. Tied to /repo by running model and Rust harness on generated, mutated, malformed and exhaustive-small inputs; oracle: no panic, process alive.",
          TB + "block ciphers are parameters returning whole blocks; safe-Rust bounds checks; dev-profile overflow checks; socket / PyO3 glue not modelled.",
          "Lean 4 proof (totality by induction on the input) + differential correspondence + panic oracle", "§7 C01"),
+ "C05": ("Lean theorem: composed with an RFC 3416 GetNext agent over ANY finite strictly sorted MIB (independent Spec.agentNext / Spec.subtree), the library's GetNext walk from any valid base yields exactly the entries strictly below the base, in order, each once, then stops; supporting theorems: byte-prefix = arc-prefix and cmp_arcs = arc order on canonical encodings, end-of-MIB answers stop the walk, fetch policy. GetBulk, fetch, sync/async and v1/v2c/v3 equivalence: e2e against an RFC agent simulator over random MIBs with an independent subtree oracle (plus the C06 safety theorems for GetBulk).",
+         TB + "GetBulk completeness is decided by the e2e oracle and the C06 theorems, not by a composition theorem (partial); asyncio, sockets not modelled.",
+         "Lean 4 proof (refinement to an abstract agent/subtree spec, induction over the sorted MIB) + e2e oracle + correspondence", "§7 C05"),
+ "C06": ("Lean theorems for an ARBITRARY agent (any list of reply PDUs): every yielded OID is inside the subtree; yields are strictly increasing in sub-identifier order (cmp_arcs proved irreflexive and transitive), hence never repeated; each follow-up request names the last accepted OID; empty / non-data / out-of-subtree / non-increasing replies end the walk; for GetNext and GetBulk including the Python iterator wrappers. E2E with hostile scripts through the raw API, the sync iterators and the async client against an independent walk specification with an iteration cap.",
+         TB + "Python iterator classes are modelled (Walk.walkNext / walkBulk) and compared e2e.",
+         "Lean 4 proof (invariant by induction over the reply history) + e2e oracle + correspondence", "§7 C06"),
+ "C07": ("Lean theorems: the complete result table of get (0 / 1 / >=2 varbinds; NULL, exception values, data), get_many = dict of the data varbinds with last-binding-wins and unique keys, Report -> SnmpAuthError for all four operations, BlockingIOError -> TimeoutError in the sync client, class hierarchy from the generated error table. E2E over all session kinds with generated replies against the documented table; conversion-layer correspondence.",
+         TB + "PyO3 conversions trusted.",
+         "Lean 4 proof (exhaustive case analysis + induction over the varbind list) + e2e oracle + correspondence", "§7 C07"),
+ "C08": ("Lean theorems over all byte strings: every accepted text is transmitted as exactly the X.690 content of the arcs its parts denote (sound), canonical text of every valid OID is accepted (complete) and prints back identically, every other text is refused with InvalidData and never panics; the five-way arc encoder equals the minimal base-128 form. Independent Spec.derOid / Spec.dotted. Correspondence + independent denotation oracle on generated and malformed texts.",
+         TB + "Rust u32::from_str / split / Display modelled and compared.",
+         "Lean 4 proof (soundness + completeness against an independent DER spec) + differential correspondence", "§7 C08"),
  "C15": ("Lean theorems: for every i64 the INTEGER encoder writes the minimal two's complement form (X.690 8.3.2) and the decoder inverts it; push_tag_len writes the minimal length form and the header parser inverts it for all lengths < 65536; OID / OCTET STRING / NULL and every Get/GetNext/GetBulk v1/v2c message that fits the buffer round-trip through the library's own decoder. Correspondence + independent minimal encoder / strict decoder on exhaustive small integers, boundary neighbourhoods and generated messages.",
          TB + "v3 message round trip is covered by the correspondence stream only in this check.",
          "Lean 4 proof (encoder specification + decoder inverse) + differential correspondence", "§7 C15"),
